@@ -27,6 +27,9 @@ import (
 // entity is not part of Scenario.Entities / Signers, so every other draw of the scenario and of the
 // transaction generator stays what it was.
 
+// IdleOwnerRuntimeID is the identifier of the idle owner's runtime.
+var IdleOwnerRuntimeID = common.NewTestNamespaceFromSeed([]byte("verif chainsim idle owner runtime"), common.NamespaceTest)
+
 func (s *Scenario) addIdleOwner(profile string) {
 	if profile != "registry" || s.Seed%2 != 0 {
 		return
@@ -40,7 +43,7 @@ func (s *Scenario) addIdleOwner(profile string) {
 	}
 	doc.Registry.Entities = append(doc.Registry.Entities, se)
 
-	id := common.NewTestNamespaceFromSeed([]byte("verif chainsim idle owner runtime"), common.NamespaceTest)
+	id := IdleOwnerRuntimeID
 	rt := &registry.Runtime{
 		Versioned:   cbor.NewVersioned(registry.LatestRuntimeDescriptorVersion),
 		ID:          id,
